@@ -383,6 +383,10 @@ def run_check(prop, tier, seed, replay=None):
                 c = prop.case_from_desc(body["desc"])
                 c.origin = "replay"
                 cases.append(c)
+                # runtime-only checks that a property module makes while it plays a case (interrupted steps, membership
+                # of what was handed out, ...) are collected by the module; a replay reports them too
+                for what, d in (getattr(prop, "runtime_failures_of_replay", lambda: [])() or []):
+                    rep.runtime_failure(what, d)
         else:
           batch = []
           try:
